@@ -18,7 +18,7 @@ theorem loop0_spec (hm : mask.length = 4) (bm : Bytes mask) (bd : Bytes data) (s
     (fun s => ∃ k, Inv mask data s k ∧ s.uint64_mask = leVal (mask ++ mask)) (fun s => s.data_len.toNat)
     (fun s hI hc => by
       obtain ⟨k, inv, h64⟩ := hI
-      obtain ⟨s', h1, h2, h3⟩ := loop0_step mask data hm bm bd s k inv h64 (by simpa using hc)
+      obtain ⟨s', h1, h2, h3⟩ := loop0_step mask data hm bm bd s k inv h64 (by have := of_decide_eq_true hc; omega)
       exact ⟨s', h1, ⟨k + 8, h2⟩, h3⟩)
     (mask.length + data.length + 1) s ⟨k, inv, h64⟩ (by simp only [hlen]; omega)
   exact ⟨s', k', h, inv'⟩
@@ -33,10 +33,10 @@ theorem loop1_spec (hm : mask.length = 4) (bm : Bytes mask) (bd : Bytes data) (s
     (fun s => ∃ k, Inv mask data s k) (fun s => s.data_len.toNat)
     (fun s hI hc => by
       obtain ⟨k, inv⟩ := hI
-      obtain ⟨s', h1, h2, h3⟩ := loop1_step mask data hm bm bd s k inv (by simpa using hc)
+      obtain ⟨s', h1, h2, h3⟩ := loop1_step mask data hm bm bd s k inv (by have := of_decide_eq_true hc; omega)
       exact ⟨s', h1, ⟨k + 4, h2⟩, h3⟩)
     (mask.length + data.length + 1) s ⟨k, inv⟩ (by simp only [hlen]; omega)
-  exact ⟨s', k', h, inv', by simpa using hc⟩
+  exact ⟨s', k', h, inv', by have := of_decide_eq_false hc; omega⟩
 
 theorem loop2_spec (hm : mask.length = 4) (bm : Bytes mask) (bd : Bytes data) (s : Gen.St) (k : Nat)
     (inv : Inv2 mask data s k 0) :
@@ -49,14 +49,14 @@ theorem loop2_spec (hm : mask.length = 4) (bm : Bytes mask) (bd : Bytes data) (s
     (fun s => ∃ j, Inv2 mask data s k j) (fun s => (s.data_len - s.i).toNat)
     (fun s hI hc => by
       obtain ⟨j, inv⟩ := hI
-      obtain ⟨s', h1, h2, h3⟩ := loop2_step mask data hm bm bd s k j inv (by simpa using hc)
+      obtain ⟨s', h1, h2, h3⟩ := loop2_step mask data hm bm bd s k j inv (by have := of_decide_eq_true hc; omega)
       exact ⟨s', h1, ⟨j + 1, h2⟩, h3⟩)
     (mask.length + data.length + 1) s ⟨0, inv⟩ (by simp only [hlen, hi]; omega)
   refine ⟨s', h, ?_⟩
   have h1 := inv'.hlen
   have h2 := inv'.hi
   have h3 := inv'.hk
-  have hc' : ¬ (s'.i < s'.data_len) := by simpa using hc
+  have hc' : ¬ (s'.i < s'.data_len) := by have := of_decide_eq_false hc; omega
   have : k + j' = data.length := by omega
   rw [inv'.hout, this]
 
